@@ -106,7 +106,17 @@ def checkC01 (h : History) (obs : List RunObs) : Option String :=
             | none => "other"
           (ever, some s!"C01 orphan [{cls}] run {ks.1}: {orph.map (fun i => i.name)} live and annotated but not in the stored inventory"))
     (false, none)
-  r.2
+  -- deleting the namespace that holds the inventory object deletes the inventory object with it (the fake API server has no
+  -- namespace controller, so the consequence is stated here): an APPLY run must never do that while managed objects are live
+  let nsDel := (List.range obs.length).findSome? fun k =>
+    match obs[k]?, h.runs[k]? with
+    | some o, some rn =>
+      if rn.destroy || rn.opts.dry ≠ .none then none else
+      (o.muts.find? fun m => m.verb = "delete" && m.id = nsInvId && m.result = "ok" &&
+          m.snap.objs.any (fun l => l.owner = invId && l.id ≠ nsInvId)).map fun m =>
+        s!"C01 run {k}: the namespace that holds the inventory object was deleted while {((m.snap.objs.filter (fun l => l.owner = invId && l.id ≠ nsInvId)).map (·.id.name))} are live and managed"
+    | _, _ => none
+  r.2 <|> nsDel
 
 /-! ### C13 — event stream well-formed, closed, nothing after close -/
 
